@@ -4,6 +4,7 @@
    no remove-private-as, no route server (those options are exercised by the correspondence harness only). *)
 From Coq Require Import List ZArith Bool.
 From Verif Require Import Decision.Model Speaker.Model Speaker.Lemmas Speaker.RibLemmas Speaker.RibProofs Speaker.RibSpec Speaker.ExportProofs.
+From Verif Require Rewrite.Model Rewrite.Proofs.
 Import ListNotations.
 Open Scope Z_scope.
 
@@ -91,3 +92,69 @@ Proof.
   intros g q a. unfold rejected. rewrite orb_true_iff, andb_true_iff, orb_true_iff, opt_eqb_eq. tauto.
 Qed.
 Print Assumptions C09_rejected_means.
+
+(* ---- the same rewriting over full AS_PATH structure (SET / SEQUENCE / CONFED segments, absent attribute,
+   remove-private-as, confederation members, route-server clients, unknown attributes): model Rewrite.Model of
+   table.UpdatePathAttrs with PrependAsn, RemovePrivateAS, removeConfedAs *)
+Module X.
+Import Rewrite.Model Rewrite.Proofs.
+
+Theorem C09_ebgp_as_path : forall g q src a,
+  xp_rs q = false -> xp_ebgp q = true -> existsb (Z.eqb (xp_as q)) (xg_members g) = false ->
+  exists p, x_path (update_path_attrs g q src a) = Some p /\
+    flat p = xp_localas q :: flat (remove_confed (cleaned q a)) /\
+    (exists l r, p = (2, xp_localas q :: l) :: r) /\
+    Forall (fun s => fst s = 1 \/ fst s = 2) p.
+Proof. exact ebgp_as_path. Qed.
+Print Assumptions C09_ebgp_as_path.
+
+Theorem C09_confed_as_path : forall g q src a,
+  xp_rs q = false -> xp_ebgp q = true -> existsb (Z.eqb (xp_as q)) (xg_members g) = true ->
+  exists p, x_path (update_path_attrs g q src a) = Some p /\
+    flat p = xp_localas q :: flat (cleaned q a) /\
+    (exists l r, p = (3, xp_localas q :: l) :: r).
+Proof. exact confed_as_path. Qed.
+Print Assumptions C09_confed_as_path.
+
+Theorem C09_ebgp_other_attrs : forall g q src a,
+  xp_rs q = false -> xp_ebgp q = true ->
+  let r := update_path_attrs g q src a in
+  (xs_local src = false -> x_nh r = xp_localaddr q /\ x_med r = None) /\
+  (xs_local src = true -> x_med r = x_med a /\ x_nh r = if x_nh a =? 0 then xp_localaddr q else x_nh a) /\
+  x_orig r = None /\ x_cl r = None /\ x_origin r = x_origin a.
+Proof. exact ebgp_other_attrs. Qed.
+Print Assumptions C09_ebgp_other_attrs.
+
+Theorem C09_ibgp_attrs : forall g q src a,
+  xp_rs q = false -> xp_ebgp q = false ->
+  let r := update_path_attrs g q src a in
+  x_path r = Some (opt_segs (x_path a)) /\
+  (xs_local src = false -> x_nh r = x_nh a) /\
+  x_lp r = Some (match x_lp a with Some v => v | None => 100 end) /\
+  x_med r = x_med a /\ x_origin r = x_origin a /\
+  (xp_rrc q = false -> x_orig r = None /\ x_cl r = None) /\
+  (xp_rrc q = true ->
+     x_orig r = Some (match x_orig a with Some o => o | None => if xs_local src then xg_id g else xs_id src end) /\
+     x_cl r = Some (xp_cluster q :: match x_cl a with Some l => l | None => [] end)).
+Proof. exact ibgp_attrs. Qed.
+Print Assumptions C09_ibgp_attrs.
+
+Theorem C09_route_server_client_unchanged : forall g q src a, xp_rs q = true -> update_path_attrs g q src a = a.
+Proof. exact route_server_client_unchanged. Qed.
+Print Assumptions C09_route_server_client_unchanged.
+
+Theorem C09_unknown_non_transitive_removed : forall g q src a,
+  xp_rs q = false ->
+  forall u, In u (x_unk (update_path_attrs g q src a)) <-> In u (x_unk a) /\ transitive (snd u) = true.
+Proof. exact unknown_non_transitive_removed. Qed.
+Print Assumptions C09_unknown_non_transitive_removed.
+
+Theorem C09_remove_private_all : forall q a, xp_rmpriv q = 1 ->
+  (forall x, In x (flat (cleaned q a)) -> is_private x = false) /\ Forall (fun s => snd s <> []) (cleaned q a) \/ x_path a = None.
+Proof. exact remove_private_all. Qed.
+Print Assumptions C09_remove_private_all.
+
+Theorem C09_prepend_keeps_segments_wellformed : forall a c p, Forall seg_ok (opt_segs p) -> Forall seg_ok (prepend a c p).
+Proof. exact prepend_seg_ok. Qed.
+Print Assumptions C09_prepend_keeps_segments_wellformed.
+End X.
